@@ -39,6 +39,7 @@ DECIDING = {
     "teardown_registrations_checked": "registrations checked to be torn down with the caller's context",
     "ownership_checked": "published resources looked for in the caller's context",
     "waits_that_blocked": "waits that had to block (request before publication)",
+    "trees_with_inherited_methods": "components inheriting prepare()/start() from an intermediate base class",
 }
 ASSUMPTIONS = ["components do not shield themselves from cancellation; timeout=0 is not generated (DESIGN.md section 4)"]
 
@@ -62,6 +63,8 @@ def tree_features(tree: dict[str, Any]) -> dict[str, int]:
     depth = max(p.count(".") + 1 if p else 0 for p in nodes)
     if depth >= 2:
         c["trees_with_depth_3plus"] = 1
+    if any(n.get("methods_in_base") and (n["has_prepare"] or n["has_start"]) for n in nodes.values()):
+        c["trees_with_inherited_methods"] = 1
     for p, n in nodes.items():
         ch = n["children"]
         iv = [(sched["phase_begin"][(x, "prepare")], sched["phase_end"][(x, "start")]) for x in ch]
